@@ -213,5 +213,6 @@ func NameLabels() []string {
 		Rep("a", 63), Rep("a", 64), Rep("1", 63), "xn--e1afmkfd", "é", "bücher", "\xff", "a\xffb",
 		"f", "A", "F", "g", "aa", "0a", "in-addr", "IN-ADDR", "İn-addr", "xin-addr", "in-addr-",
 		"ip6", "IP6", "İp6", "xip6", "arpa", "ARPA", "arpa-", "com", "COM", "c0m", "123", "a b", "*",
+		"xn--0", "xn--a-", "xn--zz", "XN--E1AFMKFD", "xn--", "host192", "1234",
 	}
 }
